@@ -278,7 +278,7 @@ CMP_OPS = ("Eq", "Ne", "Lt", "Le", "Gt", "Ge")
 
 # ------------------------------------------------------------------ state
 class State:
-    __slots__ = ("cells", "cond", "effects", "assume", "ncell", "notes", "symmem")
+    __slots__ = ("cells", "cond", "effects", "assume", "ncell", "notes", "symmem", "written")
 
     def __init__(self):
         self.cells = {}
@@ -288,6 +288,7 @@ class State:
         self.ncell = [0]
         self.notes = []
         self.symmem = {}     # symbolic pointer value -> value stored through it
+        self.written = set()  # cells written after creation
 
     def fork(self):
         s = State()
@@ -298,6 +299,7 @@ class State:
         s.ncell = self.ncell  # shared counter (ids unique across forks)
         s.notes = list(self.notes)
         s.symmem = dict(self.symmem)
+        s.written = set(self.written)
         return s
 
     def new_cell(self, val):
@@ -518,6 +520,7 @@ class Engine:
         raise Unsupported("write projection %r" % (pe,))
 
     def write_cell(self, st, cid, proj, new):
+        st.written.add(cid)
         st.cells[cid] = self.write_value(st.cells[cid], proj, new, st)
 
     def write_place(self, st, frame, p, new):
@@ -1374,10 +1377,19 @@ def _i_index(eng, st, frame, args, finfo, t):
     """Index::index(&container, idx) -> reference to the element (hookable)"""
     base = deref_val(eng, st, args[0])
     idx = args[1]
+    mutable = bool(finfo) and finfo.get("path", "").endswith("index_mut")
+    v = None
     if eng.index_hook is not None:
         v = eng.index_hook(eng, st, base, idx)
-        if v is not None:
-            return [(st, ("ref", st.new_cell(v), ()))]
+    if mutable:
+        # element handed out for writing: a cell whose final content the rules can read back
+        init = v if v is not None else ("index", base, idx)
+        cid = st.new_cell(init)
+        st.effects.append(Effect(kind="index_mut", callee="<index_mut>", resolved="<index_mut>", args=(base, idx), cell=cid,
+                                 init=init, loc=t.get("loc") if t else None, ncond=len(st.cond)))
+        return [(st, ("ref", cid, ()))]
+    if v is not None:
+        return [(st, ("ref", st.new_cell(v), ()))]
     return [(st, ("app", "&", (("index", base, idx),)))]
 
 
